@@ -77,7 +77,7 @@ def _main(a, prop, seed, t0):
     obls, info = R.generate(mod, a.only)
     gen_s = time.time() - t0
     known = load_known(prop)
-    jobs = [Obligation(ob.name, list(ax) + list(ob.assumptions), ob.goal, ob.prefix, ob.kind) for name, ob, ax in obls]
+    jobs = [Obligation(ob.name, list(ax) + list(ob.assumptions), ob.goal, ob.prefix, ob.kind, None, ob.axgroups) for name, ob, ax in obls]
     # obligations of recorded findings are expected not to be discharged: give them a short budget
     budgets = [(8 if (name in known and not name.endswith('~known-defect-shape')) else timeout) for name, ob, ax in obls]
     res = solve.discharge(jobs, timeout=timeout, budgets=budgets)
@@ -178,7 +178,7 @@ def _main(a, prop, seed, t0):
     sample_ob = []
     for (name, ob, ax) in obls[:400]:
         if ob.kind in ('post', 'loop-step', 'lemma') and len(sample_ob) < 3:
-            txt = solve.to_smt2(Obligation(ob.name, list(ax) + list(ob.assumptions), ob.goal, ob.prefix, ob.kind))
+            txt = solve.to_smt2(Obligation(ob.name, list(ax) + list(ob.assumptions), ob.goal, ob.prefix, ob.kind, None, ob.axgroups))
             sample_ob.append(dict(obligation=name, smt2_sha256=hashlib.sha256(txt.encode()).hexdigest(), smt2_head=txt[:1500]))
     trusted = ['A-SEM: Python/numpy semantics as encoded by pyvc (floats are reals; no overflow; left-to-right evaluation; only explicit raises and index/shape/division obligations model exceptions)']
     trusted += ['external contract: ' + e for e in sorted(info['externals'])]
